@@ -2,6 +2,7 @@
 import itertools
 import json
 import random
+import os
 import engine as E
 
 PROP = "C16"
@@ -45,9 +46,17 @@ def run(tier, seed, work, replay):
     import glob as _g, os as _o, re as _r
     rlog = work.path("racelog")
     E.write_ndjson(work.path("race-cases.ndjson"), [{"seed": seed, "rounds": 150 if tier == "quick" else 1500}])
-    E.run_harness(rbin, "C16race", work, cases=work.path("race-cases.ndjson"), events=work.path("race-events.ndjson"),
-                  env={"GORACE": "log_path=%s exitcode=0 halt_on_error=0" % rlog}, timeout=1800)
     races = []
+    try:
+        E.run_harness(rbin, "C16race", work, cases=work.path("race-cases.ndjson"), events=work.path("race-events.ndjson"),
+                      env={"GORACE": "log_path=%s exitcode=0 halt_on_error=0" % rlog}, timeout=1800)
+    except E.RuntimeCrash as c:
+        # "fatal error: concurrent map ..." - the runtime aborted the process, which is what the property warns of
+        fr = [(os.path.basename(f), ln) for f, ln in c.frames if f.startswith("cmd/keymasterd/")]
+        if not fr:
+            raise E.Inconclusive("the race soak crashed (%s) without a keymaster frame:\n%s" % (c.kind, c.dump))
+        races.append(sorted(set(fr))[:6])
+        cov["runtime_abort"] = c.kind
     for f in _g.glob(rlog + ".*"):
         for rep in open(f).read().split("=================="):
             if "DATA RACE" in rep:
